@@ -41,7 +41,7 @@ func c02Units(tier string) []Unit {
 			{"d3+1reopen", single, 2, 1, []int{0}, true},
 			{"d4+1reopen/same-key", []txProg{single[0], single[3], single[1]}, 4, 1, []int{0}, false},
 			{"d2+2reopens", single, 2, 2, []int{0}, false},
-			{"dev1/d2+1reopen", []txProg{full[0], full[3], full[7]}, 2, 1, []int{0, 1}, false},
+			{"dev1/d2+1reopen", []txProg{full[0], full[7]}, 2, 1, []int{0, 1}, false},
 		}
 	} else {
 		plans = []plan{
